@@ -25,6 +25,7 @@ DOC = {
         "result slicer using that same order."
     ),
     "rules": {
+        "C09-R5": "every function that accepts clp_link_tolerance / clp_link_method and calls another one that accepts it hands its own unmodified value on (Project.optimize -> create_scheme -> Scheme); DatasetGroup.is_linkable links automatically only when the union of the non-model dimensions over all datasets is one name",
         "C09-R1": "target_axis is subscripted with a position of target_axis' own index space",
         "C09-R2": "diff = target - value; forward keeps diff >= 0, backward keeps diff <= 0, nearest keeps all; the aligned value is taken only if min(|diff|) <= tolerance (closed); otherwise the value itself is returned",
         "C09-R3": "for every dataset after the first the AlignDatasetError test (duplicates after alignment) dominates the update of the accumulated axis, which is np.unique of old and new values; the first dataset defines the axis",
@@ -323,9 +324,15 @@ def r4(ctx, rule: str = "C09-R4") -> None:
            "results are reported on the dataset's original global axis, not on the aligned one")
 
 
+def r5(ctx) -> None:
+    """The alignment settings given by the user are the ones the alignment uses; automatic linking needs one common global dimension."""
+    lib.check_option_forwarding(ctx, "C09-R5", ("clp_link_tolerance", "clp_link_method"), 2)
+    lib.check_linkable_requires_one_global_dimension(ctx, "C09-R5")
+
+
 def check(ctx) -> None:
     for g in check.groups:
         g(ctx)
 
 
-check.groups = [r1_r2, r3, r4]
+check.groups = [r1_r2, r3, r4, r5]
